@@ -559,8 +559,55 @@ func cancelLine(f []string) (string, bool) {
 	return fmt.Sprintf("cancel=ok/%s/%s rewinds=%d", idsOf(d), checkStr(d), rd.seeks), false
 }
 
+// dupLine: a document that repeats ids: one GOMAXPROCS=1 extraction (ids, Check, passes, stored objects) and
+// three extractions under GOMAXPROCS 4 / 3 / 16 with yields around the keep calls (ids, Check)
+func dupLine(f []string) (string, bool) {
+	head, objs := splitBar(f)
+	if len(head) != 2 {
+		return "badline", false
+	}
+	keep := parseKeep(head[1])
+	xmlDoc := buildXML(objs)
+	one := func(procs int, steer map[ref]delay) (string, *gosm.Data, int, bool) {
+		r := extractOnce(xmlDoc, keep, procs, steer)
+		switch {
+		case r.hang:
+			return "", nil, 0, true
+		case r.panic != "":
+			return "panic:" + strings.ReplaceAll(r.panic, " ", "_"), nil, 0, false
+		case r.err != nil:
+			return errTok(r.err), nil, 0, false
+		}
+		return idsOf(r.d) + "/" + checkStr(r.d), r.d, r.passes, false
+	}
+	sq, d, passes, hang := one(1, nil)
+	if hang {
+		return "timeout dup", true
+	}
+	content := "-"
+	if d != nil {
+		content = contentOf(d)
+	}
+	steer := map[ref]delay{}
+	for _, o := range objs {
+		steer[o.ref] = delay{after: 1}
+	}
+	var par []string
+	for _, p := range []int{4, 3, 16} {
+		s, _, _, hang := one(p, steer)
+		if hang {
+			return "timeout dup", true
+		}
+		par = append(par, s)
+	}
+	return fmt.Sprintf("dup=%s/%d content=%s par=%s", sq, passes, content, strings.Join(par, ";")), false
+}
+
 func implLine(line string) (res string, fatal bool) {
 	f := strings.Fields(line)
+	if len(f) > 0 && f[0] == "d" {
+		return dupLine(f)
+	}
 	if len(f) > 0 && f[0] == "h" {
 		return histLine(f)
 	}
